@@ -544,7 +544,105 @@ impl Part for QueuedAcquirers {
     }
 }
 
-crate::declare_parts!(Reloader, ThreadStress, QueuedAcquirers);
+
+// ------------------------------------------------------------------ real threads: a request while the notifier is busy
+
+/// Thread B calls request_reload() while thread A's acquire_env() is inside the freshness
+/// callback (the notifier is locked there, so B has to wait for it). However the two interleave,
+/// the request has returned before the next acquire starts, so that acquire must rebuild.
+#[derive(Clone, Debug, Serialize, Deserialize)]
+pub struct BusyCase {
+    pub fast_reload: bool,
+    pub rounds: u8,
+    pub linger_ms: u8,
+}
+
+pub struct RequestWhileBusy;
+
+impl Part for RequestWhileBusy {
+    type Case = BusyCase;
+    const NAME: &'static str = "request_while_notifier_is_busy";
+
+    fn strategy(_tier: Tier) -> BoxedStrategy<BusyCase> {
+        (any::<bool>(), 1u8..4, 1u8..8).prop_map(|(fast_reload, rounds, linger_ms)| BusyCase { fast_reload, rounds, linger_ms }).boxed()
+    }
+
+    fn check(c: &BusyCase) -> Verdict {
+        use std::sync::mpsc;
+        let creations = Arc::new(AtomicU64::new(0));
+        let loads = Arc::new(AtomicU64::new(0));
+        // the callback tells the requester when it runs and waits for the requester to get going
+        let (in_cb_tx, in_cb_rx) = mpsc::channel::<()>();
+        let (go_tx, go_rx) = mpsc::channel::<()>();
+        let in_cb_tx = Arc::new(Mutex::new(in_cb_tx));
+        let go_rx = Arc::new(Mutex::new(go_rx));
+        let armed = Arc::new(AtomicBool::new(false));
+        let (cr, ld, fast, linger) = (creations.clone(), loads.clone(), c.fast_reload, c.linger_ms);
+        let (a2, tx2, rx2) = (armed.clone(), in_cb_tx.clone(), go_rx.clone());
+        let reloader = Arc::new(AutoReloader::new(move |n: Notifier| {
+            n.set_fast_reload(fast);
+            let (a3, tx3, rx3) = (a2.clone(), tx2.clone(), rx2.clone());
+            n.set_callback(move || {
+                if a3.swap(false, Ordering::SeqCst) {
+                    let _ = tx3.lock().unwrap().send(());
+                    let _ = rx3.lock().unwrap().recv_timeout(std::time::Duration::from_millis(500));
+                    std::thread::sleep(std::time::Duration::from_millis(linger as u64));
+                }
+                false
+            });
+            let stamp = cr.fetch_add(1, Ordering::SeqCst) + 1;
+            let mut env = Environment::new();
+            env.add_global("stamp", stamp);
+            let ld2 = ld.clone();
+            env.set_loader(move |name| {
+                ld2.fetch_add(1, Ordering::SeqCst);
+                Ok(Some(format!("t {name}")))
+            });
+            Ok(env)
+        }));
+        let stamp_of = |env: &Environment<'static>| env.globals().find(|(k, _)| *k == "stamp").and_then(|(_, v)| u64::try_from(v).ok()).unwrap_or(0);
+        let mut v = Verdict::pass(true);
+        {
+            let first = reloader.acquire_env().unwrap();
+            let _ = first.get_template("probe.txt");
+        }
+        for round in 0..c.rounds {
+            let before_creations = creations.load(Ordering::SeqCst);
+            armed.store(true, Ordering::SeqCst);
+            let r2 = reloader.clone();
+            let notifier = reloader.notifier();
+            std::thread::scope(|sc| {
+                let acq = sc.spawn(move || {
+                    let env = r2.acquire_env().unwrap();
+                    let _ = env.get_template("probe.txt");
+                });
+                // this thread is the requester: wait until the acquirer is inside the freshness
+                // callback (which holds the notifier), announce itself, request
+                let _ = in_cb_rx.recv_timeout(std::time::Duration::from_millis(500));
+                let _ = go_tx.send(());
+                notifier.request_reload();
+                let _ = acq.join();
+            });
+            // the request has returned: the next acquire must hand out something younger
+            let loads_before = loads.load(Ordering::SeqCst);
+            let env = reloader.acquire_env().unwrap();
+            let _ = env.get_template("probe.txt");
+            let stamp = stamp_of(&env);
+            let fresh = stamp > before_creations || (c.fast_reload && loads.load(Ordering::SeqCst) > loads_before);
+            if !fresh {
+                v.set_fail(
+                    "reload_request_lost_threads",
+                    format!("round {round}: request_reload() returned while another thread's acquire_env was polling the freshness callback, but the next acquire_env handed out the environment with stamp {stamp} (creations before the request: {before_creations}) and did not clear the cache\ncase: {c:?}"),
+                );
+                return v;
+            }
+        }
+        v
+    }
+}
+
+
+crate::declare_parts!(Reloader, ThreadStress, QueuedAcquirers, RequestWhileBusy);
 
 pub fn run(ctx: &mut Ctx) {
     ctx.rule = "schedules at the granularity of the reloader's lock acquisitions: up to 3 acquire_env calls (thorough: 4) with up to 3 request_reload calls placed before the acquire, right after the cache lock, between the reload check and the flag reset, between the reset and the creator, inside the creator (through the notifier handed to it), after the rebuild, before the guard is returned (verif_hooks yield points) and while the returned guard is held, x fast reload on/off x freshness callback absent / false / true-once x creator failing on its second call (by returning an error, or by panicking with the panic contained by the caller: such an acquire - and any later one that refuses to continue - hands out nothing): enumerated completely; proptest samples longer schedules (up to 5 acquires). Oracle: a logical clock; for every request that returned at t, the first successful acquire that started after t returns an environment whose creator started after t (or, with fast reload, whose template cache was cleared, observed as a loader call); while a guard is held the stamp does not change and the creator is not running; without a pending request the creator is not called again. A real-thread stress run (2-4 threads) is a smoke test; a second real-thread part queues 2-4 acquirers behind a held guard with 0-2 pending requests: at most one rebuild per request, whatever the interleaving. Non-trivial: a request at an interior yield point or inside the creator. Distinct by schedule.".into();
@@ -559,4 +657,5 @@ pub fn run(ctx: &mut Ctx) {
     ctx.run_part::<Reloader>(t.pick(20_000, 20_000_000));
     ctx.run_part::<ThreadStress>(t.pick(40, 1_000));
     ctx.run_part::<QueuedAcquirers>(t.pick(300, 6_000));
+    ctx.run_part::<RequestWhileBusy>(t.pick(150, 3_000));
 }
